@@ -500,3 +500,11 @@ def _load_refactors():
 
 
 _load_refactors()
+
+# ------------------------------------------------------------------ batched resampling of the port (R11.resample)
+M('r11-tc-resample-whole-batch', ['C16'], TU,
+  "    zero = (g1 == 0).all(-1) # resample every row of g1 that is all zero\n    while zero.any():\n        g1[zero] = torch.randint(0, 2, (int(zero.sum()), 2*N), device=device)\n        zero = (g1 == 0).all(-1)\n",
+  "    while (g1 == 0).all(): # resample g1 if it is all zero\n        g1 = torch.randint(0, 2, (L, 2*N), device=device)\n", ['R11.resample'])
+B('r11-benign-tc-resample-any-row', ['C16'], TU,
+  "    zero = (g1 == 0).all(-1) # resample every row of g1 that is all zero\n    while zero.any():\n        g1[zero] = torch.randint(0, 2, (int(zero.sum()), 2*N), device=device)\n        zero = (g1 == 0).all(-1)\n",
+  "    while (g1 == 0).all(dim=-1).any():\n        rows = (g1 == 0).all(dim=-1)\n        g1[rows] = torch.randint(0, 2, (int(rows.sum()), 2*N), device=device)\n")
